@@ -658,8 +658,9 @@ pub fn gen_buffer(p: &Pat, rng: &mut Rng, limit: usize) -> Vec<u8> {
 }
 
 // ------------------------------------------------------------------ scanning
+pub type Dump = (Vec<yara_x::verif_c01dump::SubPatternDump>, Vec<yara_x::verif_c01dump::AtomDump>, Vec<usize>);
 #[derive(Clone, Debug)]
-pub struct ScanOut { pub matches: Vec<(usize, usize, Option<u8>)>, pub panic: Option<String>,
+pub struct ScanOut { pub matches: Vec<(usize, usize, Option<u8>)>, pub panic: Option<String>, pub dump: Option<Dump>,
                      /// Match::data() returned exactly buffer[range] for every match (None: fine; Some(msg): what went wrong)
                      pub bytes_wrong: Option<String> }
 
@@ -681,6 +682,7 @@ pub fn rule_source(p: &Pat, cond: usize, noise: usize) -> String {
 
 pub fn scan(src: &str, data: &[u8], max_matches: Option<usize>) -> Result<ScanOut, String> {
     let rules = { let mut c = yara_x::Compiler::new(); c.add_source(src).map_err(|e| e.to_string())?; c.build() };
+    let dump = Some(rules.verif_c01_dump());
     let r = catch(AssertUnwindSafe(|| {
         let mut sc = yara_x::Scanner::new(&rules);
         if let Some(n) = max_matches { sc.max_matches_per_pattern(n); }
@@ -704,9 +706,9 @@ pub fn scan(src: &str, data: &[u8], max_matches: Option<usize>) -> Result<ScanOu
         Ok((out, bytes_wrong))
     }));
     match r {
-        Ok(Ok((m, bw))) => Ok(ScanOut { matches: m, panic: None, bytes_wrong: bw }),
+        Ok(Ok((m, bw))) => Ok(ScanOut { matches: m, panic: None, bytes_wrong: bw, dump }),
         Ok(Err(e)) => Err(e),
-        Err(p) => Ok(ScanOut { matches: vec![], panic: Some(p), bytes_wrong: None }),
+        Err(p) => Ok(ScanOut { matches: vec![], panic: Some(p), bytes_wrong: None, dump }),
     }
 }
 
@@ -981,6 +983,78 @@ fn directed_masked_literal(rng: &mut Rng, len: usize) -> (Pat, Vec<Vec<u8>>) {
     (Pat::Hex(Re::Cat(items)), bufs)
 }
 
+// ------------------------------------------------------------------ stream (d): the pipeline on the real atoms
+/// the sub-patterns and atoms of pattern 0 (`$a` of rule r) as Coq terms; None when a sub-pattern is
+/// outside the literal family (regexps, chain pieces)
+fn coq_dump(dump: &Dump) -> Option<(String, String, usize, usize)> {
+    let (sps, atoms, _) = dump;
+    let bits: std::collections::HashMap<&str, u16> = yara_x::verif_c01dump::verif_c01_flag_bits().into_iter().collect();
+    let mine: Vec<(usize, &yara_x::verif_c01dump::SubPatternDump)> = sps.iter().enumerate().filter(|(_, sp)| sp.pattern_id == 0).collect();
+    if mine.iter().enumerate().any(|(k, (i, _))| k != *i) { return None; }      // rule r comes first: ids 0..k-1
+    let mut out = vec![];
+    for (_, sp) in &mine {
+        let f = |n: &str| coq_bool(sp.flags & bits[n] != 0);
+        let flags = format!("(mkF {} {} {} {})", f("Wide"), f("Nocase"), f("FullwordLeft"), f("FullwordRight"));
+        let lit = coq_list(sp.literal.as_deref().unwrap_or(&[]), |b| b.to_string());
+        let alpha = match &sp.alphabet { Some(a) => coq_list(a, |b| b.to_string()), None => "std_alphabet".into() };
+        let kind = match sp.kind {
+            "Literal" => format!("(KLiteral {} {})", lit, match sp.anchored_at { Some(o) => format!("(Some {})", coq_nat(o)), None => "None".into() }),
+            "LiteralWithMask" => format!("(KMasked {} {})", lit, coq_list(sp.mask.as_deref().unwrap_or(&[]), |b| b.to_string())),
+            "Xor" => format!("(KXor {})", lit),
+            "Base64" | "CustomBase64" => format!("(KBase64 {} {} {} false)", lit, coq_nat(sp.padding.unwrap_or(9) as usize), alpha),
+            "Base64Wide" | "CustomBase64Wide" => format!("(KBase64 {} {} {} true)", lit, coq_nat(sp.padding.unwrap_or(9) as usize), alpha),
+            _ => return None,
+        };
+        out.push(format!("mkSP {} {}", kind, flags));
+    }
+    let my_atoms: Vec<String> = atoms.iter().filter(|a| a.sub_pattern_id < mine.len())
+        .map(|a| format!("mkAtom {} {} {} {}", coq_nat(a.sub_pattern_id), coq_list(&a.bytes, |b| b.to_string()), coq_nat(a.backtrack), coq_bool(a.exact))).collect();
+    let n_atoms = my_atoms.len();
+    Some((format!("[{}]", out.join("; ")), format!("[{}]", my_atoms.join("; ")), mine.len(), n_atoms))
+}
+
+/// a short hex pattern without jumps or alternatives: one Literal or one LiteralWithMask sub-pattern
+fn gen_hex_flat(rng: &mut Rng) -> Pat {
+    let n = 3 + rng.below(7) as usize;
+    let masked = rng.chance(2, 3);
+    let items: Vec<Re> = (0..n).map(|i| {
+        let b = gen_byte(rng);
+        if masked && i > 0 && i + 1 < n && rng.chance(1, 4) {
+            match rng.below(5) { 0 => Re::Cls(Cls::Any), 1 | 2 => Re::Cls(Cls::Mask(b & 0xF0, 0xF0)), _ => Re::Cls(Cls::Mask(b & 0x0F, 0x0F)) }
+        } else { Re::Cls(Cls::Byte(b)) }
+    }).collect();
+    Pat::Hex(Re::Cat(items))
+}
+
+fn pipe_case(rng: &mut Rng, idx: usize, stats: &mut Stats) -> Option<(String, String, String)> {
+    let p = match rng.below(10) { 0..=6 => gen_text(rng), _ => gen_hex_flat(rng) };
+    let data = gen_buffer(&p, rng, 48);
+    // `$a at N`: the literal is anchored and verified at that offset only
+    let anchored = matches!(&p, Pat::Text(_, m) if m.xor.is_none() && m.b64.is_none() && m.b64wide.is_none() && !m.nocase) && rng.chance(1, 5);
+    let noise = if rng.chance(1, 4) { *rng.pick(&[7usize, 40, 70]) } else { 0 };
+    let src = if anchored {
+        let at = if rng.chance(1, 2) { 0 } else { rng.below(data.len() as u64 + 1) as usize };
+        format!("rule r {{\n  strings:\n    $a = {}\n  condition:\n    $a at {}\n}}\n", yara_pat(&p), at)
+    } else { rule_source(&p, rng.below(CONDS.len() as u64) as usize, noise) };
+    let out = match scan(&src, &data, None) { Ok(o) => o, Err(e) => { eprintln!("c01: stream d pattern rejected: {e}\n{src}"); return None; } };
+    let (sps, atoms, nsp, natoms) = coq_dump(out.dump.as_ref()?)?;
+    stats.inc("pipeline_cases"); stats.add("pipeline_sub_patterns", nsp as u64); stats.add("pipeline_atoms", natoms as u64);
+    if anchored { stats.inc("pipeline_anchored"); }
+    stats.inc(&format!("pipeline_{}", shape(&p).split(':').next().unwrap()));
+    if out.panic.is_some() || out.bytes_wrong.is_some() {
+        // a panic is reported through the plain scan case
+        let (case, replay, _) = scan_case(&p, &data, 0, noise, None, idx).ok()?;
+        return Some((case, replay, String::new()));
+    }
+    let case = format!("PipeCase {} {} {} {} {} {}", coq_pat(&p), sps, atoms, coq_bool(anchored), coq_list(&data, |b| b.to_string()),
+        coq_list(&out.matches, |(s, l, k)| format!("({},{},{})", s, l, coq_key(k))));
+    let replay = format!("{{\"stream\":\"pipeline\",\"index\":{},\"shape\":{},\"tags\":{},\"data_len\":{},\"source\":{},\"data_hex\":\"{}\",\"max_matches_per_pattern\":null,\"reported\":{},\"panic\":null,\"sub_patterns\":{},\"atoms\":{}}}",
+        idx, json_str(&shape(&p)), serde_json::to_string(&tags(&p)).unwrap(), data.len(), json_str(&src), hex(&data),
+        json_str(&format!("{:?}", out.matches)), json_str(&sps), json_str(&atoms));
+    let key = if out.matches.is_empty() { String::new() } else { format!("d|{}|{}", yara_pat(&p), hex(&data)) };
+    Some((case, replay, key))
+}
+
 fn main() { let args: Vec<String> = std::env::args().skip(1).collect(); std::process::exit(run(&args)); }
 
 pub fn run(args: &[String]) -> i32 {
@@ -1063,6 +1137,18 @@ pub fn run(args: &[String]) -> i32 {
                 _ => { let (p, d, noise) = directed_teddy(&mut rng);
                        let tag = match noise + 1 { 1..=32 => "directed_kernel_le_32_atoms", 33..=64 => "directed_kernel_33_64_atoms", _ => "directed_kernel_over_64_atoms" };
                        if !push(&p, &d, noise, tag, &mut stats, &mut shards, &mut distinct) { return 2; } }
+            }
+        }
+    }
+    if only.is_none() || only.as_deref() == Some("d") {
+        // stream (d): about 15% of the cases
+        let budget = if only.is_some() { n } else { shards.total + n * 15 / 100 };
+        let mut tries = 0;
+        while shards.total < budget.min(n) && tries < 20 * n {
+            tries += 1; idx += 1;
+            if let Some((case, replay, key)) = pipe_case(&mut rng, idx, &mut stats) {
+                if !key.is_empty() { distinct.insert(key); }
+                shards.push(case, replay);
             }
         }
     }
